@@ -23,6 +23,20 @@ from harness.common import QUICK, SEED, Check
 HUGE, NANV, INFV = 2147483647, 900001, 900003
 
 
+W32, W64 = 900100, 900200
+
+
+def unwrap(v):
+    """tokens of ApiBounds for identifiers beyond 32 bits: 2**32 + k and 2**64 + k"""
+    if isinstance(v, (list, tuple)):
+        return [unwrap(x) for x in v]
+    if isinstance(v, int) and W32 <= v < W32 + 100:
+        return 2 ** 32 + (v - W32)
+    if isinstance(v, int) and W64 <= v < W64 + 100:
+        return 2 ** 64 + (v - W64)
+    return v
+
+
 def conv(kind, v):
     if kind in ("position", "time"):
         return float("nan") if v == NANV else float("inf") if v == INFV else float(v)
@@ -30,7 +44,7 @@ def conv(kind, v):
         return [conv("position", x) for x in v]
     if kind == "intervals":
         return [[conv("position", x) for x in iv] for iv in v]
-    return v
+    return unwrap(v)
 
 
 def make_ts(a):
@@ -261,13 +275,13 @@ def default_args(ts, cn, obj, params, S, mn=None):
 
 def auto_value(ts, kind, pname, v, S):
     if kind == "id_list_list":
-        l = [int(x) for x in v]
+        l = [int(x) for x in unwrap(v)]
         return [l, S] if len(l) % 2 else [S, l]
     if kind == "site_lists":       # one or two lists of site ids
-        l = [int(x) for x in v]
+        l = [int(x) for x in unwrap(v)]
         return [[l], [[0], l], [l, l]][len(l) % 3]
     if kind == "index_tuples":
-        return [tuple(int(x) for x in v)] if len(v) else []
+        return [tuple(int(x) for x in unwrap(v))] if len(v) else []
     if kind == "length":
         if pname == "W":
             return np.ones((int(v), 1))
@@ -278,7 +292,7 @@ def auto_value(ts, kind, pname, v, S):
         return np.array(conv(kind, v), dtype=float)
     if kind in ("intervals", "position", "time"):
         return conv(kind, v)
-    return v
+    return unwrap(v)
 
 
 def call_auto(ts, objs, name, kind, arg, S):
